@@ -81,11 +81,14 @@ func init() {
 	pkgRC := modulePath + "/lambda/rapidcore"
 	twoCallers = maxprog(cclock(hs(pkgRC, "VerifFullTwoCallersTimeout", 2, "FULL stack: the first invocation stalls, times out and is reset; a second caller arrives in each of 5 phases (at once / runtime working / reset begun / old runtime killed / after the answer); invariant at every scheduling point: nobody is admitted while the reset is in progress", "refused", "served-after-reset")))
 	twoCallers.noNative = true
+	twoCallersFailure := maxprog(cclock(hs(pkgRC, "VerifFullTwoCallersFailure", 2, "FULL stack: the first invocation FAILS (runtime exit) and is reset for that reason; a second caller arrives in each of 5 phases; nobody is admitted while the reset is in progress", "refused", "served-after-reset")))
+	twoCallersFailure.noNative = true
 	checkRegistry = append(checkRegistry, &checkSpec{
 		id: "C10", level: "other",
 		quick: []*harnessSpec{
 			maxprog(hs(pkgRC, "VerifC10TwoCallers", 2, "two concurrent callers of the real Server.Invoke + a following sequential one; stub sandbox; all schedules with <=2 delays", "refused", "both-served-sequentially")),
 			twoCallers,
+			twoCallersFailure,
 		},
 		thorough: []*harnessSpec{
 			maxprog(hs(pkgRC, "VerifC10TwoCallers", 3, "as quick with <=3 delays", "refused", "both-served-sequentially")),
@@ -126,7 +129,7 @@ func init() {
 		"delay-bounded schedules: at most D deviations from the deterministic round-robin non-preemptive scheduler; context switches only at synchronisation operations",
 		"identifiers, ARN and trace header are concrete; event and response payloads are symbolic byte sequences of any length up to the limit",
 	}
-	orchOutside = []string{"real sockets / HTTP framing / chi routing", "real processes and signals (fake supervisor: Kill and Terminate make the process exit and post its event)", "schedules needing more than D delays", "more extensions / invocations than the harness instantiates"}
+	orchOutside = []string{"real sockets / HTTP framing (requests are well-formed *http.Request values handed to the real chi routers)", "real processes and signals (fake supervisor: Kill and Terminate make the process exit and post its event)", "schedules needing more than D delays", "more extensions / invocations than the harness instantiates"}
 
 	c03 := []*harnessSpec{
 		orch(pkgRapid, "VerifC03Init0", 2, "init + first invocation, no extensions", "done"),
@@ -134,6 +137,10 @@ func init() {
 		orch(pkgRapid, "VerifC03Init2IS", 2, "2 external extensions (INVOKE / SHUTDOWN)", "done"),
 		orch(pkgRapid, "VerifC03Init1I1", 2, "1 external + 1 internal extension registering from inside the runtime", "done"),
 		orch(pkgRapid, "VerifC03Init0I1", 2, "1 internal extension only", "done"),
+		orch(pkgRapid, "VerifC03Held2IS", 1, "any ONE party (runtime, either extension) is held back before register / before its first next until nothing else can happen: meanwhile the runtime is not started (register), initialisation is not complete and nobody is served (next)", "held-register", "held-init", "done"),
+		orch(pkgRapid, "VerifC03Held1I1", 1, "held-back party with an internal extension", "held-init", "done"),
+		orch(pkgRC, "VerifFullTimeoutExt", 1, "history: init with an extension, timeout reset, re-initialisation inside the next invocation: in EVERY generation the runtime is started only after every launched extension registered", "scenario-done"),
+		orch(pkgRC, "VerifFullExitExt", 1, "history: runtime exit with an extension, reset, re-initialisation", "scenario-done"),
 	}
 	c03t := append(withD(c03, 3, 2000000), orch(pkgRapid, "VerifC03Init3", 2, "3 external extensions", "done"))
 	checkRegistry = append(checkRegistry, &checkSpec{id: "C03", level: "other", quick: c03, thorough: c03t, assume: orchAssume, outside: orchOutside})
@@ -142,6 +149,8 @@ func init() {
 		orch(pkgRapid, "VerifC04Invoke2_1", 2, "2 consecutive invocations, 1 extension subscribed to INVOKE+SHUTDOWN", "done"),
 		orch(pkgRapid, "VerifC04Invoke2_2", 2, "2 invocations, 2 extensions (one subscribed to INVOKE, one to nothing)", "done"),
 		orch(pkgRapid, "VerifC04Invoke2_I1", 2, "2 invocations, 1 external + 1 internal extension", "done"),
+		orch(pkgRapid, "VerifC04Held2_2", 1, "any ONE party is held back before returning to next until nothing else can happen: the invocation is not complete while the runtime or an INVOKE subscriber has not asked for next", "held-invoke", "done"),
+		orch(pkgRapid, "VerifC04Held2_I1", 1, "held-back party, external + internal extension", "held-invoke", "done"),
 	}
 	c04t := append(withD(c04, 3, 2000000), orch(pkgRapid, "VerifC04Invoke3_1", 2, "3 invocations, 1 extension", "done"))
 	checkRegistry = append(checkRegistry, &checkSpec{id: "C04", level: "other", quick: c04, thorough: c04t, assume: orchAssume, outside: orchOutside})
@@ -166,6 +175,7 @@ func init() {
 		orch(pkgRC, "VerifFullIllegal", 2, "FULL stack: case variant of the id (400), init/error after next (403), error for a stale id (400), then the legal response", "case-variant", "illegal", "scenario-done"),
 		orch(pkgRC, "VerifFullStale", 2, "FULL stack: stale-id (400), duplicate (refused) and normal submissions through validator + handlers + Server", "stale", "double", "scenario-done"),
 		srvSeq("VerifC01Sequence2", 2, "Server.Invoke x2, stale id then right id", "wrong-id"),
+		orch(pkgRC, "VerifC06ExtensionFault", 1, "accepted only once: after the platform answered the caller with the first fault (extension crash), the function's own late response for the same id is refused (no panic, caller keeps the platform error)", "late-response-after-fault", "done"),
 	}
 	c02t := append(withD(c02, 3, 3000000), orch(pkgRC, "VerifC02ServerScript5", 0, "as ServerScript4 with 5 operations", "accepted"))
 	checkRegistry = append(checkRegistry, &checkSpec{id: "C02", level: "other", quick: c02, thorough: c02t, assume: orchAssume, outside: orchOutside})
@@ -177,6 +187,7 @@ func init() {
 		srvSeq("VerifC01Sequence1", 2, "Server.Invoke against the stub sandbox incl. stall", "timeout"),
 		expiry(orch(pkgRC, "VerifC05ExpiryRaceStub", 3, "stub sandbox, the function-timeout timer may fire at ANY point of two healthy invocations (response-versus-expiry): each ends with its response or the timeout outcome and never disturbs the next one", "expiry-won", "response-won")),
 		orch(pkgRC, "VerifFullRace2", 2, "FULL stack, timer may fire at any point of two healthy invocations after init", "expiry-won", "respond", "scenario-done"),
+		orch(pkgRC, "VerifC05SlowStateGetter", 2, "stub sandbox: the completion report of invocation A is delayed (slow internal-state getter) past A's timeout reset and B's reservation: the late DONE is discarded, B ends with its own response", "late-done", "done"),
 		expiry(orch(pkgRC, "VerifFullRaceInit2", 1, "FULL stack, timer may fire at any point INCLUDING the lazy initialisation: a timed-out invocation is never dispatched behind its reset (the next runtime gets the next event)", "expiry-before-dispatch", "respond", "scenario-done")),
 	}
 	checkRegistry = append(checkRegistry, &checkSpec{id: "C05", level: "other", quick: c05, thorough: withD(c05, 3, 3000000), assume: orchAssume, outside: append(orchOutside, "wall-clock bound of the answer (logical time only)", "stalls during extension registration / runtime init (see C03 harness for the barrier)")})
@@ -203,6 +214,7 @@ func init() {
 		orch(pkgRapid, "VerifC09Shutdown1", 1, "explicit shutdown, 1 extension, same behaviour choices", "returned", "with-extensions"),
 		orch(pkgRapid, "VerifC09Reset1Failure", 1, "failure reset, 1 extension", "returned"),
 		orch(pkgRapid, "VerifC09Reset2", 1, "timeout reset, 2 extensions: all 5x5 behaviour pairs x 2 runtime behaviours", "returned", "with-extensions"),
+		orch(pkgRapid, "VerifC09AfterUnreaped", 1, "a reset that cannot reap a process (its exit is never reported) returns after the fixed 2 s grace; a following reset and shutdown return at once", "gave-up", "second-reset-returned", "done"),
 	}
 	c09t := append(withD(c09, 2, 3000000), orch(pkgRapid, "VerifC09Shutdown2", 2, "explicit shutdown, 2 extensions", "returned"))
 	checkRegistry = append(checkRegistry, &checkSpec{id: "C09", level: "other", quick: c09, thorough: c09t,
@@ -217,6 +229,8 @@ func init() {
 		orch(pkgRC, "VerifFullTimeoutExt", 1, "timeout with an extension", "scenario-done"),
 		orch(pkgRC, "VerifFullExitExt", 1, "runtime exit with an extension", "scenario-done"),
 		orch(pkgRapid, "VerifC03Init1I1", 1, "init with external + internal extension, then an invocation", "done"),
+		orch(pkgRC, "VerifFullRespondExit", 2, "the runtime posts its response and exits instead of polling again: no success runtime-done for that invocation", "respond-exit", "scenario-done"),
+		orch(pkgRC, "VerifC08SettledExt", 0, "error statuses carry the type of the first fault of THEIR generation: after a reset during which an extension reported exit/error, a runtime exit of the next generation is reported as Runtime.ExitError (differential against a fresh instance)", "prefix-6", "done"),
 	}
 	checkRegistry = append(checkRegistry, &checkSpec{id: "C15", level: "other", quick: c15, thorough: withD(c15, 3, 3000000),
 		assume: []string{"recording EventsAPI injected into the real rapidContext; the monitor (harness code) checks nesting, counts, phase tags and truthfulness of success statuses against the ghost log of what the scripted parties really did"},
@@ -227,7 +241,7 @@ func init() {
 	pkgRC := modulePath + "/lambda/rapidcore"
 	pkgRapid := modulePath + "/lambda/rapid"
 	c12 := []*harnessSpec{
-		orch(pkgRC, "VerifC12Script4", 0, "FULL stack: the first runtime executes every script of 4 calls over {next, response(in-flight), response(stale), error(in-flight), init/error} against a reference automaton, while two invocations arrive", "next-new", "next-same", "accepted", "refused-state", "init-error", "init-error-refused", "script-done"),
+		orch(pkgRC, "VerifC12Script4", 0, "FULL stack: the first runtime executes every script of 4 calls over {next, response(in-flight), response(stale), error(in-flight), init/error, non-existing call (unknown route 404 / wrong method 405 / restore call outside snapshot mode 404)} sent through the real chi router, against a reference automaton, while two invocations arrive", "next-new", "next-same", "accepted", "refused-state", "init-error", "init-error-refused", "script-done"),
 		orch(pkgRC, "VerifFullIllegal", 2, "FULL stack: illegal calls interleaved with legal ones, schedules with <=2 delays", "case-variant", "illegal", "scenario-done"),
 		orch(pkgRapid, "VerifC18Restore", 1, "snapshot mode: restore/next, restore/error, legacy init/error, stalled hook, no restore poll, exit (routes exist only in snapshot mode is not checked)", "hook-ok", "hook-error", "hook-timeout", "no-restore-poll", "exit"),
 	}
@@ -239,11 +253,12 @@ func init() {
 	}
 	checkRegistry = append(checkRegistry, &checkSpec{id: "C12", level: "other", quick: c12, thorough: c12t,
 		assume:  []string{"FULL composition (real Server, orchestration, validator, handlers, Runtime state objects) from go/ssa; the reference automaton is harness code written from the property text", "where the text is silent the reference accepts the code's answer (none needed for the Runtime API)"},
-		outside: []string{"chi routing: 404/405 for unknown routes, and the mounting of restore routes only in snapshot mode", "scripts longer than 5 calls"}})
+		outside: []string{"scripts longer than 5 calls"}})
 
 	c13 := []*harnessSpec{
 		orch(pkgRC, "VerifC13External3", 0, "FULL stack: an external extension executes every script of 3 calls over {register(INVOKE), register(bad event), register(SHUTDOWN), next, init/error, exit/error, unknown id, missing/malformed id} against a reference automaton", "registered", "event", "init-error", "exit-error", "script-done"),
 		orch(pkgRC, "VerifC13Internal3", 0, "the same for an internal extension registering from inside the runtime", "registered", "script-done"),
+		orch(modulePath+"/lambda/core", "VerifC13Limit", 0, "registration service: k = 0..10 external extensions, then registrations chosen among {fresh internal name, name of an external, repeated internal name}: at most ten extensions, ErrTooManyExtensions for the eleventh, name collisions across kinds refused, refused registrations change no count", "limit", "collision", "duplicate", "done"),
 		orch(pkgRC, "VerifC13ExitWhileParked", 1, "exit/error reported while another request of the extension is parked in next: the parked next is refused when released", "exit-reported", "parked-next-answered"),
 	}
 	c13t := []*harnessSpec{
@@ -253,7 +268,7 @@ func init() {
 	}
 	checkRegistry = append(checkRegistry, &checkSpec{id: "C13", level: "other", quick: c13, thorough: c13t,
 		assume:  []string{"FULL composition from go/ssa; reference automaton is harness code", "a repeated identical init/error (resp. exit/error) report in its own final state is answered 202 by the code and changes nothing: the property text is silent, the reference accepts 202 or 403"},
-		outside: []string{"the limit of ten extensions and name collisions across kinds (one extension per script)", "the accountId feature header", "scripts longer than 4 calls", "JSON body parsing beyond the concrete bodies used"}})
+		outside: []string{"the ten-extension limit at the launch loop for more than ten extension files", "the accountId feature header", "scripts longer than 4 calls", "JSON body parsing beyond the concrete bodies used"}})
 
 	c18 := []*harnessSpec{
 		orch(pkgRapid, "VerifC18Restore", 1, "snapshot mode, symbolic runtime behaviour in {hook ok, restore/error(type), init/error(type), hook stalls, no restore poll, exit}, symbolic error type and presented token", "hook-ok", "hook-error", "hook-timeout", "no-restore-poll", "exit"),
@@ -292,6 +307,7 @@ func init() {
 		sup("VerifC19Status1", 2, "one process, SYMBOLIC natural exit code (0..255) / terminating signal (1..31) / TERM-handler exit code, 3 reactions to TERM, one request out of {Kill, Kill past deadline, Kill unknown, Terminate, Terminate unknown}: the event carries the true status (decoded by the real syscall.WaitStatus code)", "event-exit-status", "event-signal", "terminated", "done"),
 		sup("VerifC19One2", 2, "one process: 3 TERM reactions x SIGKILL-resistant or not x forks a child into its group or not x {runs on, exits 0/1/200, dies of a signal}, 2 requests, natural exit racing with the requests", "kill-ok", "kill-timeout", "kill-already-exited", "kill-past-deadline", "kill-unknown", "kill-group", "terminate", "terminate-does-not-wait", "done"),
 		sup("VerifC19Two2", 1, "two processes at once (4 profiles each), 2 requests on either", "kill-ok", "kill-group", "terminate", "done"),
+		sup("VerifC19Concurrent", 2, "concurrent requests: while a Kill of a SIGKILL-resistant process is blocked until its deadline, Terminate / Kill of another process complete at once", "terminate-while-kill-blocked", "kill-while-kill-blocked", "done"),
 	}
 	c19t := []*harnessSpec{
 		sup("VerifC19Status2", 2, "as Status1 with 2 requests", "event-exit-status", "event-signal", "done"),
@@ -320,6 +336,7 @@ func init() {
 		orch(pkgRC, "VerifC07Runtime2ThenStall", 1, "two consecutive faulty generations: script of 2 calls, then a runtime that stalls, then healthy ones; 4 invocations", "faulty-generations-gone", "done"),
 		orch(pkgRC, "VerifC07Runtime2ThenExit", 0, "as above, the second generation exits", "faulty-generations-gone", "done"),
 		orch(pkgRC, "VerifFullStallThenStall", 1, "two consecutive timeouts (late exit notifications of the old generation)", "timeout", "scenario-done"),
+		orch(pkgRC, "VerifC05SlowStateGetter", 1, "a completion report delayed past the timeout reset and the next reservation does not give the next caller an empty success", "late-done", "done"),
 	}
 	c07t := []*harnessSpec{
 		orch(pkgRC, "VerifC07Runtime3", 1, "runtime scripts of 3 calls", "done"),
@@ -344,9 +361,10 @@ func init() {
 	pkgRC := modulePath + "/lambda/rapidcore"
 	c08 := []*harnessSpec{
 		orch(pkgRC, "VerifC08Settled", 1, "differential, no extension: 6 prefixes {healthy+reset, runtime exit, timeout, init error then exit, response-then-exit + reset, init crash then timeout} x 4 suffixes {healthy, exit, stall, function error; then healthy}: per-generation state after the reset and all suffix observations equal those of a fresh instance that was reset at once", "prefix-0", "prefix-1", "prefix-2", "prefix-3", "prefix-4", "prefix-5", "suffix-0", "suffix-1", "suffix-2", "suffix-3", "done"),
-		orch(pkgRC, "VerifC08SettledExt", 0, "as above with one extension subscribed to INVOKE+SHUTDOWN (base schedule)", "prefix-3", "suffix-1", "done"),
+		orch(pkgRC, "VerifC08SettledExt", 0, "as above with one extension subscribed to INVOKE+SHUTDOWN (base schedule); 7th prefix: timeout during which the extension answers SHUTDOWN with an exit/error report; during the suffix a request carrying the OLD generation's extension identifier (next or exit/error) must be refused with 403", "prefix-3", "prefix-6", "stale-identifier", "suffix-1", "done"),
 		orch(pkgRC, "VerifC08Late", 1, "the exit notification of the first SIGKILLed process of the prefix is handled late: when the next invocation has begun / has reached its runtime / has ended (3 phases) x 6 prefixes x 4 suffixes; caller outcomes and platform events equal those of the reference", "prefix-2", "suffix-2", "done"),
 		orch(pkgRC, "VerifC08LateExt", 0, "late notification, one extension (base schedule)", "done"),
+		orch(pkgRC, "VerifC05SlowStateGetter", 1, "interop-server leftover: the DONE of an invocation of the old generation posted after the reset and the next reservation is discarded", "late-done", "done"),
 	}
 	c08t := []*harnessSpec{
 		orch(pkgRC, "VerifC08Settled", 2, "<= 2 delays", "done"),
